@@ -13,6 +13,16 @@ type columnIndex struct {
 	rowid    bool
 }
 
+// SQLite names are case insensitive for ASCII letters only.
+func lower(s string) string {
+	return strings.Map(func(r rune) rune {
+		if r >= 'A' && r <= 'Z' {
+			return r + 'a' - 'A'
+		}
+		return r
+	}, s)
+}
+
 // Regroups a Record to a Row, filling in missing columns as needed.
 func toRow(rowid int64, cis []columnIndex, r sdb.Record) Row {
 	row := make(Row, len(cis))
@@ -38,8 +48,8 @@ func toColumnIndexRowid(s *sdb.Schema, columns []string) ([]columnIndex, error) 
 	for _, c := range columns {
 		n := s.Column(c)
 		if n < 0 {
-			cup := strings.ToUpper(c)
-			if cup == "ROWID" || cup == "OID" || cup == "_ROWID_" {
+			cl := lower(c)
+			if cl == "rowid" || cl == "oid" || cl == "_rowid_" {
 				res = append(res, columnIndex{nil, n, true})
 				continue
 			} else {
@@ -81,11 +91,11 @@ func columnStoreOrder(schema *sdb.Schema) []int {
 	// all PK columns come first, then all other columns, in order
 	var cols = make([]string, 0, len(schema.Columns))
 	for _, c := range schema.PK {
-		cols = append(cols, strings.ToLower(c.Column))
+		cols = append(cols, lower(c.Column))
 	}
 loop:
 	for _, c := range schema.Columns {
-		n := strings.ToLower(c.Column)
+		n := lower(c.Column)
 		for _, oc := range cols {
 			if oc == n {
 				continue loop
@@ -97,7 +107,7 @@ loop:
 	res := make([]int, len(schema.Columns))
 loop2:
 	for i, c := range schema.Columns {
-		n := strings.ToLower(c.Column)
+		n := lower(c.Column)
 		for j, oc := range cols {
 			if oc == n {
 				res[i] = j
@@ -121,14 +131,14 @@ func pkColumns(schema *sdb.Schema, ind *sdb.SchemaIndex) []int {
 		if c == "" {
 			return sdb.DefaultCollate
 		}
-		return strings.ToLower(c)
+		return lower(c)
 	}
 	var res []int
 	declared := ind.Columns
 	for _, c := range schema.PK {
 		in := -1
 		for i, ic := range declared {
-			if strings.EqualFold(ic.Column, c.Column) && collate(ic.Collate) == collate(c.Collate) {
+			if lower(ic.Column) == lower(c.Column) && collate(ic.Collate) == collate(c.Collate) {
 				in = i
 				break
 			}
